@@ -69,11 +69,15 @@ def gen_valid(rng, nops):
             op = 4
         else:
             op = 5
+        if op in (0, 1, 2) and rng.random() < 0.4:
+            # the INSTRUCTION instead of the method: 7 panic_pause (= unpause_if_expired; pause), 8 panic_unpause (admin),
+            # 9 panic_unpause_permissionless — real handlers through the entry point
+            op = {0: 7, 1: 8, 2: 9}[op]
         ops.append((op, now))
-        if op in (0, 5) and rng.random() < 0.5:
+        if op in (0, 5, 7) and rng.random() < 0.5:
             # cache propagation orderings: propagate right after a pause / extension, then ask the group's cache
             # around the two candidate expiry seconds (propagation time + 1800, pause start + 1800)
-            if op == 0:
+            if op in (0, 7):
                 now += rng.choice([0, 1, 600, 1799])
                 ops.append((5, now))
             for dt in rng.sample([1, 1799, 1800, 1801, 2400, 2999, 3000, 3599, 3600], 3):
@@ -168,8 +172,8 @@ def nontrivial(suite, case, impl):
         st, ops, outs = parse(case, impl)
     except Exception:
         return False
-    ok = any(o == 0 and r == "OK" for (o, _), (r, _, _) in zip(ops, outs))
-    refused = any(o == 0 and r.startswith("E") for (o, _), (r, _, _) in zip(ops, outs))
+    ok = any(o in (0, 7) and r == "OK" for (o, _), (r, _, _) in zip(ops, outs))
+    refused = any(o in (0, 7) and r.startswith("E") for (o, _), (r, _, _) in zip(ops, outs))
     return ok and refused
 
 
@@ -190,7 +194,7 @@ def oracle(suite, case, impl):
     last_reset = st[4]
     propagated_after_last_change = False
     for (op, now), (r, st2, cache) in zip(ops, outs):
-        if op in (0, 1, 2) and r == "OK" and st2 != st:
+        if op in (0, 1, 2, 7, 8, 9) and r == "OK" and st2 != st:
             propagated_after_last_change = False
         if op == 5:
             propagated_after_last_change = True
@@ -204,7 +208,15 @@ def oracle(suite, case, impl):
             if not in_force and r == "B0":
                 return {"key": "group-blocked-after-expiry",
                         "what": f"at {now} the refreshed group cache still reports a pause that ended at {st[3] + 1800}"}
-        if op == 0 and r == "OK":
+        if op in (8, 9) and r != "OK" and (st[0] & 1):
+            # 'unpausing never fails while a pause flag is set' (admin); 'anyone may clear a pause that has run out'
+            if op == 8:
+                return {"key": "unpause-failed-while-paused", "what": f"panic_unpause at {now} failed ({r}) although the pause flag is set"}
+            if now >= st[3] + 1800:
+                return {"key": "expired-pause-cannot-be-cleared", "what": f"panic_unpause_permissionless at {now} failed ({r}) although the pause ended at {st[3] + 1800}"}
+        if op == 9 and r == "OK" and not ((st[0] & 1) and now >= st[3] + 1800):
+            return {"key": "permissionless-unpause-before-expiry", "what": f"panic_unpause_permissionless succeeded at {now}; pause start {st[3]}, flag {st[0]}"}
+        if op in (0, 7) and r == "OK":
             if until(st2, now) > until(st, now) + 1800:
                 return {"key": "extend>30min", "what": f"pause at {now} moved paused-until from {until(st, now)} to {until(st2, now)}"}
             if st2[4] != last_reset:
@@ -216,9 +228,9 @@ def oracle(suite, case, impl):
                 since += 1
             if since > 3:
                 return {"key": "daily>3", "what": f"{since} pauses succeeded since the reset at {last_reset}"}
-        elif op == 0 and r == "PANIC":
+        elif op in (0, 7) and r == "PANIC":
             return {"key": "pause-abort", "what": f"pause aborted at {now}"}
-        elif op in (1, 2):
+        elif op in (1, 2, 8, 9):
             if until(st2, now) > until(st, now):
                 return {"key": "unpause-extends", "what": "unpause moved paused-until forward"}
         elif op == 3:
